@@ -4,6 +4,7 @@
 import PasfmtModel.Model.Contracts
 import PasfmtModel.Model.Cursor
 import PasfmtModel.Model.Parser
+import PasfmtModel.Model.IO
 
 namespace Pasfmt
 
@@ -170,6 +171,72 @@ def handleParse (kindsS passesS : String) : String :=
     s!"passes={passesStr}\tlines={linesStr}"
   | _, _ => "bad-record"
 
+def parseTable (s : String) : Option (List (Bytes × Option Bytes)) :=
+  (parseList s).mapM fun e =>
+    match e.splitOn ":" with
+    | [a, b] => do
+      let a ← ofHex a
+      if b == "none" then pure (a, none) else do
+        let b ← ofHex b
+        pure (a, some b)
+    | _ => none
+
+def tableFn (t : List (Bytes × Option Bytes)) (k : Bytes) : Option Bytes :=
+  match t.lookup k with
+  | some v => v
+  | none => none
+
+def parseMode (s : String) : Option IO.Mode :=
+  if s == "files" then some .files else if s == "stdout" then some .stdout else if s == "check" then some .check else none
+
+def parseEnc (s : String) : Option IO.Enc :=
+  if s == "utf8" then some .utf8 else if s == "utf16le" then some .utf16le else if s == "utf16be" then some .utf16be
+  else if s == "other" then some (.other 0) else none
+
+/-- `io` stream: one file in one mode; `fmtT` maps decoded text to formatted text, `decT`/`encT`
+    are the external codec's results for a legacy encoding -/
+def handleIo (modeS encS contentS headerS fmtT decT encT : String) : String :=
+  match parseMode modeS, parseEnc encS, ofHex contentS, ofHex headerS, parseTable fmtT, parseTable decT, parseTable encT with
+  | some mode, some enc, some content, some header, some ft, some dt, some et =>
+    let C := IO.driverCodec (tableFn dt) (tableFn et)
+    let fmt : Bytes → Bytes := fun t => (tableFn ft t).getD t
+    let o := IO.runFile C fmt id enc mode header content
+    let stdin := IO.runStdin C fmt enc content
+    let stdinS := match stdin with | some b => toHex b | none => "fail"
+    s!"file={toHex o.file}\tinfo_wrote={bool01 o.wrote}\tstdout={toHex o.stdout}\tfailed={bool01 o.failed}\tstdin={stdinS}\tcheckstdin={bool01 (IO.checkStdin C fmt enc content)}"
+  | _, _, _, _, _, _, _ => "bad-record"
+
+/-- `sched` stream: per-thread file sequences; answers the buffer length each step starts with -/
+def handleSched (workersS : String) : String :=
+  match (parseList workersS ";").mapM (fun w => (parseList w ",").mapM String.toNat?) with
+  | some ws =>
+    -- each file is represented by its length; the buffer after a step holds that many bytes
+    let stale := ws.map fun files =>
+      (files.foldl (fun (acc : List Nat × Nat) len => (acc.1 ++ [acc.2], len)) ([], 0)).1
+    showList (stale.map fun l => showList (l.map toString) ",") ";"
+  | none => "bad-record"
+
+def parseKV (s : String) : Option (List (String × String)) :=
+  (parseList s).mapM fun e =>
+    match e.splitOn "=" with
+    | k :: rest => some (k, "=".intercalate rest)
+    | _ => none
+
+/-- `cfg` stream: which directory's pasfmt.toml is used, the effective values, acceptance -/
+def handleCfg (dirsS fileS ovS knownS validS defaultsS : String) : String :=
+  match (parseList dirsS).mapM String.toNat?, parseKV fileS, parseKV ovS, parseKV validS, parseKV defaultsS with
+  | some dirs, some file, some ov, some valid, some defaults =>
+    let known := parseList knownS
+    let found := IO.findConfig (fun (p : Nat × Nat) => p.2 == 1) (dirs.zipIdx.map fun (d, i) => (i, d))
+    let S : IO.ConfigSpec String String :=
+      { known := fun k => known.contains k,
+        valid := fun k v => valid.contains (k, v),
+        default := fun k => (defaults.lookup k).getD "" }
+    let eff := known.map fun k => s!"{k}={IO.effective S file ov k}"
+    let foundS := match found with | some (i, _) => toString i | none => "none"
+    s!"found={foundS}\tok={bool01 (IO.configOk S file ov)}\tinfo_eff={showList eff ","}"
+  | _, _, _, _, _ => "bad-record"
+
 def handleLine (line : String) : String :=
   match line.splitOn "\t" with
   | ["lex", h] =>
@@ -188,6 +255,9 @@ def handleLine (line : String) : String :=
       | some toks => showRawToks toks
   | ["fmt", cfg, inp, kinds, lines, post, changed, alnum, cursors] => handleFmt cfg inp kinds lines post changed alnum cursors
   | ["parse", kinds, passesOps] => handleParse kinds passesOps
+  | ["io", mode, enc, content, header, fmtT, decT, encT] => handleIo mode enc content header fmtT decT encT
+  | ["sched", workers] => handleSched workers
+  | ["cfg", dirs, file, ov, known, valid, defaults] => handleCfg dirs file ov known valid defaults
   | _ => "bad-op"
 
 partial def loop (hin : IO.FS.Stream) (hout : IO.FS.Stream) : IO Unit := do
